@@ -121,6 +121,39 @@ CHECKS = {
    design_ref='DESIGN.md 6 (C11)',
    note='Signature level; the database-level half (foreign_key_check after execution) is part of the C01 check.',
    technique='TLA+ transcription + TLC exhaustive enumeration + spec-to-code replay'),
+ 'C05': dict(
+   engine='sigpair', category='model_checking',
+   text=('Hint.tla transcribes FieldSignature/ModelSignature.diff, the __eq__ methods and Diff.evolution() on top of Sig!Sim; '
+         'TLC enumerates every (stored, edited) signature pair reachable by the developer-edit actions (one per item of the '
+         'quantifier, incl. explicit defaults and reordered lists) and checks HintCloses, SelfDiffEmpty, EqIffDiffEmptyBothWays. '
+         'Every pair is rebuilt as real ProjectSignatures by direct construction and pushed through the real Diff, '
+         'Diff.evolution(), simulate() and __eq__; the hinted mutation list must equal the transcription\'s (binding) and the '
+         'residual diff must be empty (verdict).'),
+   design_ref='DESIGN.md 3.1, 6 (C05)',
+   note='Placeholders for required initial values are left in place. db_table_comment / constraints edits are not in the edit alphabet yet.',
+   technique='TLA+ transcription of diff/hint + TLC enumeration of signature pairs + replay'),
+ 'C06': dict(
+   engine='codec', category='model_checking',
+   text=('Codec.tla defines a depth-bounded value grammar (primitives, containers, Q trees with AND/OR/XOR/negation/nesting, F, '
+         'Value, combined expressions, Deferrable) and transcribes the storage pipeline with the real container semantics '
+         '(json arrays, ordered dicts, the type dispatch of _get_serializer_for_value); TLC evaluates ReadBackEqual(ModuloTuples) '
+         'and ReserialiseSameText for every value. Each value is placed into a real signature (index condition/expressions/include, '
+         'constraint check/deferrable/attrs, field attribute) and pushed through serialize+json+deserialize and through '
+         'Version.save()/reload on SQLite: ==, Diff both ways, re-serialised text, and v2->v1->v2 for field attributes.'),
+   design_ref='DESIGN.md 3.6, 6 (C06)',
+   note='Byte-level escaping is exercised only through a string palette (quotes, backslash, unicode, percent).',
+   technique='TLA+ transcription of the codec dispatch + TLC enumeration of values + storage round trip replay'),
+ 'C13': dict(
+   engine='codec', category='model_checking',
+   text=('Codec.tla transcribes serialize_to_python per type with explicit error sinks and a precedence-climbing re-parse of '
+         'combined expressions; TLC checks RenderTotal and RenderParsesBack for every value of the grammar. Each value is rendered '
+         'by the real code and the text evaluated by Python (must give the value back, Q trees modulo the flattening Python\'s '
+         'own operators perform); a share is carried by real ChangeMeta/AddField mutations through a real task\'s '
+         'get_evolution_content(), exec()-ed as a module, and the loaded mutations compared by simulated signature and generated SQL; '
+         'placeholders must be explicit and must not load.'),
+   design_ref='DESIGN.md 3.6, 6 (C13)',
+   note='The Python interpreter is the oracle for the meaning of rendered text.',
+   technique='TLA+ transcription of the renderer + TLC enumeration of values + exec() replay'),
 }
 
 NOT_YET = {
@@ -164,6 +197,10 @@ def main():
              'kind_free_text': 'TLC-enumerated dependency graphs replayed into DependencyGraph'},
             {'name': 'mutseq', 'path': 'harness/engines/mutseq.py', 'serves_properties': ['C01', 'C02', 'C03', 'C18'],
              'kind_free_text': 'TLC-enumerated mutation sequences replayed through three real pipelines on SQLite'},
+            {'name': 'sigpair', 'path': 'harness/engines/sigpair.py', 'serves_properties': ['C05'],
+             'kind_free_text': 'signature pairs from Hint.tla rebuilt as real ProjectSignatures: Diff, hint, simulate, __eq__'},
+            {'name': 'codec', 'path': 'harness/engines/codec.py', 'serves_properties': ['C06', 'C13'],
+             'kind_free_text': 'values of Codec.tla concretised: storage round trip through Version rows; hint text exec()'},
             {'name': 'refs', 'path': 'harness/engines/refs.py', 'serves_properties': ['C11'],
              'kind_free_text': 'TLC-enumerated reference graphs and rename/delete sequences replayed into real simulate() methods'},
             {'name': 'evograph', 'path': 'harness/engines/evograph.py', 'serves_properties': ['C09'],
